@@ -15,6 +15,8 @@ Comparison mode per pair (frozen in the table from what holds on the reviewed
 tree, strictest first): "paths" - equal sets of path sequences; "kinds" -
 equal sets of token kinds (used where one side loops and the other recurses).
 """
+import re
+
 from .facts import walk, strip_targs
 from .cfgutil import classify_return
 from .dropped import ret_kind
@@ -179,6 +181,8 @@ class WireSig:
 
     def live(self, fn, reader):
         dead = set()
+        from . import selectors as SEL
+        SEL.VERSION_LOCALS["ids"] = SEL.version_locals(fn)
         if reader:
             for b in fn.blocks.values():
                 if b.cond is None or len(b.succ) != 2:
@@ -299,6 +303,10 @@ def compare(ws, pair):
     wp, wt, wf, _ = ws.signature(pair["writer"], False)
     rp, rt, rf, _ = ws.signature(pair["reader"], True)
     wp, rp = wp - {()}, rp - {()}
+    # a bit count that is not a literal on one side (hoisted into a local) matches any literal on the other
+    if any(t == "BITSn" for s_ in wp | rp for t in s_):
+        gen = lambda ps: {tuple("BITSn" if re.match(r"BITS\d+$", t) else t for t in s_) for s_ in ps}
+        wp, rp = gen(wp), gen(rp)
     wk = {t for s in wp for t in s}
     rk = {t for s in rp for t in s}
     mode = pair.get("mode", "paths")
@@ -395,7 +403,14 @@ def run_wiresig(ctx, rep, rule="WIRESIG", ids=None, ledger=False):
             now = reader_signatures(ctx.F, tab, p)
             for v, sig in sorted(now.items()):
                 fz = frozen.get(v, frozen.get("current"))
-                same = sorted(fz) == sorted(sig)
+                if any("BITSn" in x.split() for x in sig) or any("BITSn" in x.split() for x in fz):
+                    g_ = lambda xs: sorted({" ".join(sorted(set("BITSn" if re.match(r"BITS\d+$", t) else t for t in x.split()))
+                                                     if x.startswith("KINDS") else
+                                                     " ".join("BITSn" if re.match(r"BITS\d+$", t) else t for t in x.split()))
+                                            for x in xs})
+                    same = g_(fz) == g_(sig)
+                else:
+                    same = sorted(fz) == sorted(sig)
                 n += 1
                 rep.add(Obligation(rule, p["id"], "reader record for version %s streams (%s)" % (v, r0.replace("draco::", "")),
                                    ctx.F.find(r0)[0].loc, DISCHARGED if same else VIOLATION,
